@@ -144,10 +144,7 @@ func genC11(ctx *Ctx) {
 	}
 	// long contents: line breaks of every style placed across the multiples of a block size B (whatever a scanner remembers
 	// per block of input meets a break that straddles the block boundary), the cursor is moved back and forth over them
-	blocks := []int{64, 256, 1024}
-	if ctx.Thorough {
-		blocks = append(blocks, 4096)
-	}
+	blocks := []int{64, 256, 1024, 4096} // (the largest one is checked by the direct oracle only in the quick tier: the model needs minutes for it)
 	for _, B := range blocks {
 		for _, brk := range []string{"\n", "\r", "\r\n", "\n\r"} {
 			for align := 0; align < 2; align++ {
@@ -178,6 +175,10 @@ func genC11(ctx *Ctx) {
 				}
 				ops = append(ops, c11op(4, 0), c11op(5, B+2), c11op(1, 0), c11op(1, 0), c11op(1, 0), c11op(5, 3), c11op(5, B+20), c11op(2, 3), c11op(0, 0))
 				ctx.Count(fmt.Sprintf("long-content:block-%d", B))
+				if B > 1024 && !ctx.Thorough {
+					ctx.OracleOnly(sx.L(sx.R(rs), sx.List(ops)), fmt.Sprintf("long content, block %d", B))
+					continue
+				}
 				ctx.Input(sx.L(sx.R(rs), sx.List(ops)), true)
 			}
 		}
